@@ -14,7 +14,7 @@ import (
 	"verif/harness/run"
 )
 
-var mixedRunes = []rune{'a', 'b', 'é', 'ß', '日', '😀', '0', ' ', '�'}
+var mixedRunes = []rune{'a', 'b', 'é', 'ß', '日', '😀', '0', ' ', '�', 0x7f, 0x80, 0x7ff, 0x800, 0xd7ff, 0xe000, 0xffff, 0x10000, 0x10ffff}
 
 // sliceSubject draws an array or a mixed-width string of length n.
 func sliceSubject(t *rapid.T, n int) jv.Val {
